@@ -168,7 +168,7 @@ def pFile (ts : List String) : Option (String × FileD) := do
   let (loc, r) ← pLoc r
   let (pkg, r) ← pHex r
   let (n, r) ← pNat r
-  let (imps, r) ← pMany pHex n r
+  let (imps, r) ← pMany (fun ts => do let (a, r) ← pHex ts; let (b, r) ← pHex r; pure ((a, b), r)) n r
   let (opts, r) ← pOpts fuel r
   let (n, r) ← pNat r
   let (exts, r) ← pMany (pExt fuel) n r
@@ -234,7 +234,7 @@ end
 services, enums) -/
 def encFile2 (f : FileD) : String :=
   " ".intercalate (
-    [encS f.pkg, toString f.imports.length] ++ f.imports.map encS ++ encOpts2 f.opts ++
+    [encS f.pkg, toString f.imports.length] ++ (f.imports.map fun i => [encS i.1, encS i.2]).flatten ++ encOpts2 f.opts ++
     [toString f.exts.length] ++ (f.exts.map fun e => encS e.1 :: encField2 e.2).flatten ++
     [toString f.items.length] ++ encItems2 (isBlock "message") f.items ++ encItems2 (isBlock "service") f.items ++
     encItems2 (isBlock "enum") f.items)
